@@ -196,7 +196,7 @@ def run(run):
     # code -> spec: random multi-sheet workbooks under random histories, every evaluation judged by TLC (Trace_Local)
     from checks import wbdrive
     v = wbdrive.run_driver(run, 1200 if run.tier == 'quick' else 20000, mix='c12')
-    if v.get('ok', 0) < 2000:
+    if sum(n for k, n in v.items() if k != 'open') < 2000:
         raise xl.MachineryError(f'random workbook driver is vacuous: {dict(v)}')
 
 
